@@ -113,36 +113,45 @@ Section Progress.
 
   (* ---------- the reader: each character read shortens the input ---------- *)
 
-  Lemma take_first_size rest : forall c i, take_first rest = Some (c, i) ->
-    S (stream_size i) = fold_left (fun a ch => a + length ch) rest 0.
+  Lemma fold_len_shift (rest : list (list inchar)) : forall k,
+    fold_left (fun a ch => a + length ch) rest k = k + fold_left (fun a ch => a + length ch) rest 0.
   Proof.
-    assert (G : forall (rest : list (list inchar)) k, fold_left (fun a ch => a + length ch) rest k
-                                 = k + fold_left (fun a ch => a + length ch) rest 0).
-    { induction rest0 as [|ch rest0 IH]; intros k; cbn [fold_left]; [lia|]. rewrite (IH (k + length ch)), (IH (0 + length ch)). lia. }
-    induction rest as [|ch rest IH]; intros c i H; cbn [take_first] in H; [discriminate|].
-    destruct ch as [|c0 t].
-    - cbn [fold_left length]. apply IH in H. exact H.
-    - inversion H; subst. unfold stream_size. cbn [in_cur in_rest fold_left length].
-      rewrite (G rest (0 + S (length t))). lia.
+    induction rest as [|ch rest IH]; intros k; cbn [fold_left]; [lia|].
+    rewrite (IH (k + length ch)), (IH (0 + length ch)). lia.
   Qed.
-  Lemma take_char_size cur rest c i : take_char cur rest = Some (c, i) -> S (stream_size i) = stream_size (mkIn cur rest).
+  Lemma take_in_chunk_size ch : forall c t, take_in_chunk ch = Some (c, t) -> S (length t) <= length ch.
   Proof.
-    unfold take_char. destruct cur as [|c0 t].
-    - intros H. apply take_first_size in H. unfold stream_size in *. cbn [in_cur in_rest length] in *. lia.
-    - intros H. inversion H; subst. unfold stream_size. cbn [in_cur in_rest length]. lia.
+    induction ch as [|x ch IH]; intros c t H; cbn [take_in_chunk] in H; [discriminate|].
+    destruct x; try (inversion H; subst; cbn [length]; lia).
+    apply IH in H. cbn [length]. lia.
+  Qed.
+  Lemma take_first_size rest : forall c i, take_first rest = Some (c, i) ->
+    S (stream_size i) <= fold_left (fun a ch => a + length ch) rest 0.
+  Proof.
+    induction rest as [|ch rest IH]; intros c i H; cbn [take_first] in H; [discriminate|].
+    cbn [fold_left]. rewrite (fold_len_shift rest (0 + length ch)).
+    destruct (take_in_chunk ch) as [[c0 t]|] eqn:E.
+    - inversion H; subst. apply take_in_chunk_size in E. unfold stream_size. cbn [in_cur in_rest]. lia.
+    - apply IH in H. lia.
+  Qed.
+  Lemma take_char_size cur rest c i : take_char cur rest = Some (c, i) -> S (stream_size i) <= stream_size (mkIn cur rest).
+  Proof.
+    unfold take_char. destruct (take_in_chunk cur) as [[c0 t]|] eqn:E.
+    - intros H. inversion H; subst. apply take_in_chunk_size in E. unfold stream_size. cbn [in_cur in_rest]. lia.
+    - intros H. apply take_first_size in H. unfold stream_size in *. cbn [in_cur in_rest] in *. lia.
   Qed.
 
   Lemma dec_next_char : dec next_char.
   Proof.
     intros s a s' H. unfold next_char in H.
-    destruct (take_char (in_cur (e_inp s)) (in_rest (e_inp s))) as [[[c|] i]|] eqn:E; try discriminate.
+    destruct (take_char (in_cur (e_inp s)) (in_rest (e_inp s))) as [[[c| |pm] i]|] eqn:E; try discriminate.
     cbn in H. inversion H; subst. unfold sz. cbn [e_inp]. apply take_char_size in E.
     destruct (e_inp s) as [cur rest]. cbn [in_cur in_rest] in E. lia.
   Qed.
   Lemma nf_next_char : nf next_char.
   Proof.
     intros s H. unfold next_char in H.
-    destruct (take_char (in_cur (e_inp s)) (in_rest (e_inp s))) as [[[c|] i]|]; cbn in H; discriminate.
+    destruct (take_char (in_cur (e_inp s)) (in_rest (e_inp s))) as [[[c| |pm] i]|]; cbn in H; discriminate.
   Qed.
   Lemma ni_next_char : ni next_char. Proof. apply ni_of_dec, dec_next_char. Qed.
 
@@ -549,9 +558,44 @@ Section Progress.
 
   (* ---------- the main loop ---------- *)
 
+  Lemma peek_first_size rest : forall m i, peek_first rest = Some (m, i) ->
+    S (stream_size i) <= fold_left (fun a ch => a + length ch) rest 0.
+  Proof.
+    induction rest as [|ch rest IH]; intros m i H; cbn [peek_first] in H; [discriminate|].
+    cbn [fold_left]. rewrite (fold_len_shift rest (0 + length ch)).
+    destruct ch as [|x t]; [apply IH in H; cbn [length]; lia|].
+    destruct x; try discriminate. inversion H; subst. unfold stream_size. cbn [in_cur in_rest length]. lia.
+  Qed.
+  Lemma peek_print_size inp m i : peek_print inp = Some (m, i) -> stream_size i < stream_size inp.
+  Proof.
+    unfold peek_print. destruct inp as [cur rest]. cbn [in_cur in_rest]. destruct cur as [|x t].
+    - intros H. apply peek_first_size in H. unfold stream_size in *. cbn [in_cur in_rest length] in *. lia.
+    - destruct x; try discriminate. intros H. inversion H; subst. unfold stream_size. cbn [in_cur in_rest length]. lia.
+  Qed.
+  Lemma ni_external_print m : ni (external_print U cfg m). Proof. unfold external_print. disp. ni_all. Qed.
+  Lemma nf_external_print m : nf (external_print U cfg m). Proof. unfold external_print. disp. nf_all. Qed.
+  Lemma ni_drain_prints fuel : ni (drain_prints U cfg fuel).
+  Proof.
+    induction fuel as [|f IH]; cbn [drain_prints]; [apply ni_ret|].
+    intros s a s' H. apply ebind_inv in H. destruct H as [s0 [s0' [H0 H]]]. inversion H0; subst s0 s0'.
+    destruct (peek_print (e_inp s)) as [[m i]|] eqn:E; [|inversion H; apply le_n].
+    apply ebind_inv in H. destruct H as [u [s1 [H1 H]]]. inversion H1; subst.
+    apply ebind_inv in H. destruct H as [u2 [s2 [H2 H]]].
+    pose proof (ni_external_print m _ _ _ H2) as L2. pose proof (IH _ _ _ H) as L3.
+    apply peek_print_size in E. unfold sz in *. cbn [e_inp] in *. lia.
+  Qed.
+  Lemma nf_drain_prints fuel : nf (drain_prints U cfg fuel).
+  Proof.
+    induction fuel as [|f IH]; cbn [drain_prints]; [apply nf_ret|].
+    apply nf_bind; [apply nf_get|]. intros s. destruct (peek_print (e_inp s)) as [[m i]|]; [|apply nf_ret].
+    apply nf_bind; [apply nf_set_inp|]. intros _. apply nf_bind; [apply nf_external_print|]. intros _. exact IH.
+  Qed.
+
   Theorem main_loop_never_dry fuel : nfb fuel (main_loop U cfg fuel).
   Proof.
     induction fuel as [|f IH]; cbn [main_loop]; [intros s Hs; lia|].
+    apply nfb_bind; [apply nfb_of_nf, nf_get|apply ni_get|]. intros s00.
+    apply nfb_bind; [apply nfb_of_nf, nf_drain_prints|apply ni_drain_prints|]. intros _.
     apply nfb_step; [apply nfb_next_cmd|apply dec_next_cmd|]. intros c0.
     apply nfb_bind; [apply nfb_of_nf; nf_all|ni_all|]. intros _.
     apply nfb_bind; [destruct c0; try (apply nfb_of_nf, nf_ret); destruct (c_has_helper cfg);
